@@ -161,7 +161,7 @@ func c09Run(c fw.Case, env *fw.Env) fw.Result {
 		}
 	case "stop":
 		for i := 0; i < p.N; i++ {
-			for _, phase := range []string{"connected", "backoff-never-connected", "backoff-after-connected", "in-dialer-first", "in-dialer-later", "waiting-connack", "cancel-before-first"} {
+			for _, phase := range []string{"connected", "backoff-never-connected", "backoff-after-connected", "in-dialer-first", "in-dialer-later", "waiting-connack", "cancel-before-first", "cancel-in-dialer"} {
 				sig, det, trc := c09Stop(rng, phase)
 				r.Evals++
 				if sig == "inconclusive" {
@@ -204,7 +204,7 @@ func c09Stop(rng *rand.Rand, phase string) (sig, detail string, trace []string) 
 	parked := make(chan int, 16)
 	parkAt := 0
 	switch phase {
-	case "in-dialer-first":
+	case "in-dialer-first", "cancel-in-dialer":
 		parkAt = 1
 	case "in-dialer-later":
 		parkAt = 2
@@ -305,7 +305,7 @@ func c09Stop(rng *rand.Rand, phase string) (sig, detail string, trace []string) 
 			return "inconclusive", "no failed dial seen", nil
 		}
 		time.Sleep(time.Millisecond) // let the loop reach its back-off select
-	case "in-dialer-first":
+	case "in-dialer-first", "cancel-in-dialer":
 		select {
 		case <-parked:
 		case <-time.After(scen.Watchdog):
@@ -336,6 +336,44 @@ func c09Stop(rng *rand.Rand, phase string) (sig, detail string, trace []string) 
 		}
 	}
 	dialsBefore := countDials()
+	if phase == "cancel-in-dialer" {
+		// the context is cancelled while the first dial is in progress; the dial then succeeds
+		tr.Note("cancelling the Connect context while DialContext is running")
+		cancel()
+		var cerr error
+		select {
+		case cerr = <-connDone:
+		case <-time.After(scen.Watchdog):
+			return fail("connect-does-not-return-on-cancel", "Connect did not return after its context was cancelled during the first dial")
+		}
+		if !errors.Is(cerr, context.Canceled) {
+			return fail("cancel-error", "Connect returned %v, want the context's error", cerr)
+		}
+		close(park) // the dial completes and hands out a transport
+		// that transport must be closed by the library and no further dial may start
+		closedOK := tr.WaitFor(2*time.Second, func() bool {
+			if len(tr.Conns) == 0 {
+				return false
+			}
+			for _, c := range tr.Conns {
+				if !c.LocalClosed {
+					return false
+				}
+			}
+			return true
+		})
+		time.Sleep(3 * time.Millisecond)
+		if n := countDials(); n != dialsBefore {
+			return fail("dial-after-cancel", "%d further dial(s) started after the Connect context was cancelled before the first success", n-dialsBefore)
+		}
+		if !closedOK {
+			if scen.CertifyStuck(tr, &memnet.Conn{Tr: tr}) {
+				return fail("transport-left-open-after-cancel", "the transport handed out by the dial that was in progress when the context was cancelled was never closed by the library")
+			}
+			return "inconclusive", "transport not closed yet", nil
+		}
+		return "", "", nil
+	}
 	if phase == "cancel-before-first" {
 		tr.Note("cancelling the Connect context")
 		cancel()
@@ -413,7 +451,7 @@ func init() {
 		Level: "fault_enumeration",
 		Rule: "life: seeded sequences of connection-ending causes (idle peer close, malformed packet from the broker, refused CONNACK codes 1-5, absent CONNACK with a connect timeout, cuts of 4 kinds on any request packet, dial errors incl. runs of consecutive failures, keep-alive silence, outages of random length) on the real ReconnectClient with back-off (base,max) in {(1,1),(1,8),(2,16),(4,4),(8,2),(3,5)} ms; " +
 			"monitor: at every dial.start all earlier transports have been closed by the library; first packet of every connection is exactly one CONNECT with identical client id/options; the gap between the end of an attempt (dial error return / first library Close of that transport) and the next dial.start is >= min(base*2^k, max) with k reset by a successful connect (sound lower bound); after faults stop a connection is established (sentinel). " +
-			"stop: Disconnect steered into every phase (connected, back-off wait before/after a first connection, inside DialContext of the first/a later dial, waiting for CONNACK) and cancellation before the first success with a 60 s back-off; Disconnect must return without panic, no dial.start afterwards. Non-trivial: runs with >=1 redial; each stop phase executed.",
+			"stop: Disconnect steered into every phase (connected, back-off wait before/after a first connection, inside DialContext of the first/a later dial, waiting for CONNACK), cancellation before the first success with a 60 s back-off, and cancellation while the first dial is in progress (the transport it hands out must be closed, no further dial); Disconnect must return without panic, no dial.start afterwards. Non-trivial: runs with >=1 redial; each stop phase executed.",
 		Assumptions: []string{"time.After never fires early on the monotonic clock the harness also reads, so lower bounds are sound under load", "absence of further dials after Disconnect is observed for 3x the maximum back-off"},
 		Gen:         c09Gen,
 		Run:         c09Run,
